@@ -7,4 +7,5 @@ INVARIANT LookupInTable
 INVARIANT MaskCovers
 INVARIANT LayoutValidForTn
 INVARIANT ChanNrTasks
+INVARIANT HistoryFree
 CHECK_DEADLOCK FALSE
